@@ -73,9 +73,40 @@ def inline_call(caller_raw, bi, callee_raw):
         blocks.append(nb)
 
 
+def inlined_copy(db, f, suffixes, depth=2):
+    """A copy of f in which every call to a workspace function whose path ends with one of `suffixes` is replaced by the callee's body.
+    Rules that describe a protocol spread over a function and its private helpers use it to read one canonical body, whether the author
+    keeps the helpers or has merged them into the caller."""
+    from .db import Fn
+    raw = copy.deepcopy(f.raw)
+    done = False
+    for _ in range(depth):
+        changed = False
+        bi = 0
+        while bi < len(raw['blocks']):
+            t = raw['blocks'][bi]['term']
+            if t['k'] == 'call':
+                c = t.get('resolved') or t.get('callee') or ''
+                g = db.fns.get(c)
+                if g is None and t.get('callee'):
+                    g = db.fns.get(t['callee'])
+                if g is not None and g.path != f.path and g.path.endswith(tuple(suffixes)) and g.kind in ('Fn', 'AssocFn') and \
+                        len(raw['blocks']) + len(g.raw['blocks']) < 2000:
+                    inline_call(raw, bi, g.raw)
+                    changed = done = True
+            bi += 1
+        if not changed:
+            break
+    if not done:
+        return f
+    thread_jumps(raw)
+    return Fn(raw, f.crate)
+
+
 def apply(db):
     base = load_baseline()
     db.inlined = {}
+    db.adopted_closures = {}
     if base is None:
         return
     # materialised boolean merges (`!(a && b)`, `let ok = if .. {true} else {false}; if ok ..`) are threaded in every workspace body
@@ -90,8 +121,7 @@ def apply(db):
     for f in db.fns.values():
         if f.crate in WORKSPACE and f.kind in ('Fn', 'AssocFn') and not f.promoted_of and f.path not in base and not f.raw.get('derived') \
                 and not f.raw.get('trait_default_of') and not f.raw.get('impl_trait') and len(f.blocks) <= MAX_BLOCKS:
-            if any(g.kind == 'Closure' and g.parent == f.path for g in db.fns.values()):
-                continue
+            # a helper with closures is inlined too: its closures are then also closures of the caller (db.adopted_closures)
             cands[f.path] = f
     if not cands:
         return
@@ -109,6 +139,10 @@ def apply(db):
                     if c and c != f.path and len(f.raw['blocks']) + len(cands[c].raw['blocks']) < 2000:
                         inline_call(f.raw, bi, cands[c].raw)
                         db.inlined.setdefault(f.path, []).append(c)
+                        own = [g.path for g in db.fns.values() if g.kind == 'Closure' and g.parent == c] + list(db.adopted_closures.get(c, ()))
+                        if own:
+                            db.adopted_closures.setdefault(f.path, [])
+                            db.adopted_closures[f.path] += [x for x in own if x not in db.adopted_closures[f.path]]
                         changed = True
                 bi += 1
             if f.path in db.inlined:
